@@ -121,8 +121,27 @@ func ruleC12(p *Prog, r *Res) {
 			if !ok {
 				return true
 			}
-			name := types.ExprString(rs.X)
-			if name != "indexFileNames" && name != "stateFilenames" {
+			// by role: a range over the result of tools.ListFiles(dir, suffix); the suffix tells index files from state files
+			name := ""
+			if xo := identObj(info, rs.X); xo != nil {
+				inspectShallow(f.Body(), func(y ast.Node) bool {
+					if as, ok := y.(*ast.AssignStmt); ok && len(as.Rhs) == 1 && len(as.Lhs) >= 1 && sameObj(info, as.Lhs[0], xo) {
+						if c, ok := as.Rhs[0].(*ast.CallExpr); ok && len(c.Args) == 2 {
+							if fn := p.Callee(f.Pkg, c); fn != nil && fn.Name() == "ListFiles" {
+								if tv, ok := info.Types[c.Args[1]]; ok && tv.Value != nil {
+									if strings.Contains(tv.Value.ExactString(), "state") {
+										name = "stateFilenames"
+									} else {
+										name = "indexFileNames"
+									}
+								}
+							}
+						}
+					}
+					return true
+				})
+			}
+			if name == "" {
 				return true
 			}
 			nLoops++
@@ -523,6 +542,9 @@ func removedNameIsLocal(p *Prog, f, root *Fn, info *types.Info, c *ast.CallExpr)
 		return false, "receiver provenance unknown"
 	}
 	if paramIndexDeep(f, src) >= 0 {
+		if okc, whyc := localAtCallSites(p, root, src, 1); okc {
+			return true, "cleanup helper: file of parameter " + src.Name() + "; " + whyc
+		}
 		return false, "file of a reader/writer passed in as " + src.Name()
 	}
 	return true, "file of " + src.Name() + ", created in this function"
@@ -707,7 +729,9 @@ func ruleC12Persist(p *Prog, r *Res) {
 												if _, isPtr := obj.Type().Underlying().(*types.Pointer); !isPtr {
 													return true
 												}
-												if obj.Name() == "newTag" || obj.Name() == "nt" {
+												// by role: a pointer that is only ever assigned the address of a composite literal
+												// or of a local copy is a tag under construction, not the installed one
+												if freshTagPointer(info, g, obj) {
 													return true
 												}
 											}
@@ -734,4 +758,39 @@ func ruleC12Persist(p *Prog, r *Res) {
 		}
 	}
 	r.Floor(ruleF, 10, nf)
+}
+
+// freshTagPointer: every assignment to the pointer variable obj in g (and its enclosing function) is &T{…} or
+// &local where local is a variable declared in the same function (a by-value copy being built).
+func freshTagPointer(info *types.Info, g *Fn, obj types.Object) bool {
+	root := g.Root()
+	n, ok := 0, true
+	ast.Inspect(root.Body(), func(x ast.Node) bool {
+		as, isAs := x.(*ast.AssignStmt)
+		if !isAs || len(as.Lhs) != len(as.Rhs) {
+			return true
+		}
+		for i, l := range as.Lhs {
+			if !sameObj(info, l, obj) {
+				continue
+			}
+			n++
+			ue, isU := ast.Unparen(as.Rhs[i]).(*ast.UnaryExpr)
+			if !isU || ue.Op != token.AND {
+				ok = false
+				continue
+			}
+			switch t := ast.Unparen(ue.X).(type) {
+			case *ast.CompositeLit:
+			case *ast.Ident:
+				if v, isVar := info.Uses[t].(*types.Var); !isVar || v.IsField() || v.Pos() < root.Node().Pos() || v.Pos() > root.Node().End() {
+					ok = false
+				}
+			default:
+				ok = false
+			}
+		}
+		return true
+	})
+	return ok && n > 0
 }
